@@ -208,11 +208,27 @@ def check_large(case):
     yp = rs.randint(0, 2, size=n)
     w = rs.randint(1, 5, size=n).astype(float) * case["wscale"]
     names = ["f%d" % j for j in range(len(feats))]
-    sf = pd.DataFrame({nm: f for nm, f in zip(names, feats)}) if case["frame"] else np.column_stack(feats)
+    if case.get("str_labels"):
+        # string labels whose lexicographic order differs from the numeric one ('g10' < 'g2')
+        feats = [np.array(["g%d" % v for v in f]) for f in feats]
+    n_cf = min(case.get("n_cf", 0), len(feats) - 1)
+    cols = pd.DataFrame({nm: f for nm, f in zip(names, feats)}) if case["frame"] else np.column_stack(feats)
+    if n_cf:
+        # the first n_cf columns act as control features
+        cf = cols.iloc[:, :n_cf] if case["frame"] else cols[:, :n_cf]
+        sf = cols.iloc[:, n_cf:] if case["frame"] else cols[:, n_cf:]
+        extra = {"control_features": cf}
+    else:
+        sf, extra = cols, {}
     metrics = {"count": fm.count, "sel": fm.selection_rate, "wacc": M.m_wmean}
     mf = MetricFrame(metrics=metrics, y_true=yt, y_pred=yp, sensitive_features=sf,
-                     sample_params={"sel": {"sample_weight": w}, "wacc": {"sample_weight": w}})
+                     sample_params={"sel": {"sample_weight": w}, "wacc": {"sample_weight": w}}, **extra)
     bg = mf.by_group
+    M.need(len(set(bg.index.tolist())) == len(bg), "by_group index has duplicate entries")
+    expected_cells = 1
+    for f in feats:
+        expected_cells *= len(set(f.tolist()))
+    M.need(len(bg) == expected_cells, f"by_group has {len(bg)} rows, the Cartesian product of the observed levels has {expected_cells}")
     seen = 0
     for key, row in zip(bg.index.tolist(), bg.itertuples(index=False)):
         key = key if isinstance(key, tuple) else (key,)
@@ -228,16 +244,36 @@ def check_large(case):
             M.need(np.ndim(got) == 0 and M.close(got, e, 1e-9, max(abs(e), 1e-300)), f"by_group[{key}][{nm}] = {got!r}, from the {int(mask.sum())} rows of the cell: {e!r}")
     M.need(seen == n, f"cells cover {seen} of {n} rows")
     ov = mf.overall
-    M.need(float(ov["count"]) == n and M.close(ov["sel"], float(w[yp == 1].sum() / w.sum())), f"overall {ov.to_dict()}")
-    return ["nt", f"n={n}"]
+    tags = ["nt", f"n={n}"]
+    if n_cf:
+        tot = 0
+        for key, row in zip(ov.index.tolist(), ov.itertuples(index=False)):
+            key = key if isinstance(key, tuple) else (key,)
+            mask = np.ones(n, dtype=bool)
+            for f, v in zip(feats[:n_cf], key):
+                mask &= f == v
+            tot += int(mask.sum())
+            M.need(float(row[0]) == mask.sum() and M.close(row[1], float(w[mask & (yp == 1)].sum() / w[mask].sum())),
+                   f"overall[{key}] = {tuple(row)} for the {int(mask.sum())} rows of that control combination")
+        M.need(tot == n, f"control combinations of overall cover {tot} of {n} rows")
+        tags.append("control")
+    else:
+        M.need(float(ov["count"]) == n and M.close(ov["sel"], float(w[yp == 1].sum() / w.sum())), f"overall {ov.to_dict()}")
+    if len(bg) >= 30:
+        tags.append("cells>=30")
+    return tags
 
 
 @st.composite
 def _large_strategy(draw):
-    k = draw(st.integers(1, 2))
+    k = draw(st.integers(1, 3))
+    levels = [draw(st.sampled_from([2, 3, 4, 12, 40])) for _ in range(k)]
+    while np.prod([v + 1 for v in levels]) > 2500:
+        levels[levels.index(max(levels))] = 4
     return {"n": draw(st.sampled_from([1000, 2500, 5000, 12000])), "seed": draw(st.integers(0, 2**31 - 1)),
-            "levels": [draw(st.integers(2, 4)) for _ in range(k)], "rare": draw(st.sampled_from([1, 2, 7])),
-            "wscale": draw(st.sampled_from([1.0, 0.25, 1e-6])), "frame": draw(st.booleans())}
+            "levels": levels, "rare": draw(st.sampled_from([1, 2, 7])),
+            "wscale": draw(st.sampled_from([1.0, 0.25, 1e-6])), "frame": draw(st.booleans()),
+            "str_labels": draw(st.booleans()), "n_cf": draw(st.sampled_from([0, 0, 1, 2]))}
 
 
 REGIONS = {}  # D12 was repaired in /repo: its former region is part of the ordinary search (class 'name_collision')
@@ -261,5 +297,6 @@ SUBS = [
     Sub("cells", check, strategy=_strategy, quick=1500, thorough=40000, shards=16,
         floors={"nt": 0.3, "groups>=2": 0.357, "single_member_cell": 0.2, "empty_cell": 0.099, "control": 0.15,
                 "sample_params": 0.222, "dict>=2": 0.15, "n1": 0.003}),
-    Sub("cells_large", check_large, strategy=_large_strategy, quick=32, thorough=400, shards=16, shrink_quick=False),
+    Sub("cells_large", check_large, strategy=_large_strategy, quick=32, thorough=400, shards=16, shrink_quick=False,
+        floors={"cells>=30": 0.25, "control": 0.12}),
 ]
